@@ -7,6 +7,10 @@
 (*        current at that (virtual) instant                                   *)
 (*   {e: "Finish", v: "yes" | "no", at}   the value wait_for_schema_agreement *)
 (*        returned ("direct") / ResponseFuture.is_schema_agreed ("ddl_*")     *)
+(*   {e: "Abort",  v: "n/a" | "yes" | "no", at}   an exception escaped from   *)
+(*        the wait (scripted: the coordinator's connection is closed instead  *)
+(*        of answering a poll); v = "n/a" when it reached the caller          *)
+(*        ("direct"), else is_schema_agreed of the delivered result           *)
 (* The trace is accepted iff it is a behaviour of ControlAgree: any polling   *)
 (* schedule with gaps <= MaxGap is, the reported outcome must be the one (a), *)
 (* (b), (c) of ControlAgree.tla allow.  KPeers \cup UPeers must be 1..N and   *)
@@ -34,6 +38,7 @@ TraceNext ==
     /\ LET e == Tr[l] IN
        \/ e.e = "Poll"   /\ Poll(SnapOf(e.snap), e.at)
        \/ e.e = "Finish" /\ Finish(e.v, e.at)
+       \/ e.e = "Abort"  /\ Abort(e.v, e.at)
 
 TraceSpec == TraceInit /\ [][TraceNext]_tvars
 
